@@ -104,6 +104,16 @@ type c11Payload struct {
 }
 
 func c11Exec(dir string, p c11Program, env []string) procx.Outcome {
+	out := c11ExecT(dir, p, env, 40*time.Second)
+	if out.Killed {
+		// no exit within 40 s: a hang - or a machine so loaded that the process was starved. Elapsed time is no oracle:
+		// the same case is run again with ten times the patience, and only a run that does not end then either is a hang.
+		out = c11ExecT(dir, p, env, 400*time.Second)
+	}
+	return out
+}
+
+func c11ExecT(dir string, p c11Program, env []string, timeout time.Duration) procx.Outcome {
 	drv.ClearDir(dir)
 	drv.WriteFiles(dir, p.Files)
 	var held *os.File
@@ -117,7 +127,7 @@ func c11Exec(dir string, p c11Program, env []string) procx.Outcome {
 		env = append([]string{"VERIF_MAPORDER=" + p.MapOrder}, env...)
 	}
 	env = append(env, "VERIF_POLL_POINTS=1") // a signal can also arrive right before any look at the cancellation
-	out := procx.Exec(procx.Run{Dir: dir, Args: p.Args, Env: env, Timeout: 40 * time.Second})
+	out := procx.Exec(procx.Run{Dir: dir, Args: p.Args, Env: env, Timeout: timeout})
 	if held != nil {
 		syscall.Flock(int(held.Fd()), syscall.LOCK_UN)
 		held.Close()
